@@ -5,7 +5,9 @@
 #ifndef VERIF_VCOMMON_HPP_
 #define VERIF_VCOMMON_HPP_
 
+#include <pthread.h>
 #include <sched.h>
+#include <signal.h>
 #include <time.h>
 #include <unistd.h>
 
@@ -254,6 +256,7 @@ struct ChaosTls {
   uint64_t overlaps[kMaxPoint];        // delays during which foreign operations completed
   uint64_t sig[kMaxPoint];             // bitset over cur_op: (point, op) pairs that overlapped
   uint32_t prob_div;                   // this thread's delay probabilities are divided by prob_div (0 = 1)
+  int preempt_slot;                    // slot in the preemption table (+1; 0 = not registered)
   uint64_t last_arrival;               // engine use
   const void *last_obj;
 };
@@ -273,6 +276,42 @@ struct ChaosTotals {
 };
 extern ChaosTotals g_chaos_totals;
 
+/*------------------------------------------------------------------------------
+ * signal-based preemption: a helper thread sends SIGUSR1 to random registered threads and the handler busy-waits, so
+ * a thread can be stalled between ANY two instructions (not only at the hook points), e.g. between a load and the
+ * CAS that follows it.  Plain builds only.
+ *----------------------------------------------------------------------------*/
+constexpr int kPreemptSlots = 128;
+struct PreemptTable {
+  std::atomic<int> lock{0};
+  pthread_t th[kPreemptSlots];
+  bool used[kPreemptSlots];
+};
+extern PreemptTable g_preempt;
+extern std::atomic<uint64_t> g_preempt_stall_ns;
+extern std::atomic<uint64_t> g_preempt_sent;
+extern std::atomic<uint64_t> g_preempt_handled;
+extern std::atomic<bool> g_preempt_run;
+
+inline void
+PreemptLock()
+{
+  int z = 0;
+  while (!g_preempt.lock.compare_exchange_weak(z, 1, std::memory_order_acquire)) {
+    z = 0;
+    sched_yield();
+  }
+}
+inline void
+PreemptUnlock()
+{
+  g_preempt.lock.store(0, std::memory_order_release);
+}
+void PreemptRegister();
+void PreemptUnregister();
+void PreempterStart(uint64_t seed, uint64_t gap_min_us, uint64_t gap_max_us, uint64_t stall_min_us, uint64_t stall_max_us);
+void PreempterStop();
+
 inline void
 ChaosThreadBegin(int tid, uint64_t seed)
 {
@@ -281,6 +320,7 @@ ChaosThreadBegin(int tid, uint64_t seed)
   t.tid = tid;
   t.rng.Seed(seed * 0x9E3779B97F4A7C15ULL + static_cast<uint64_t>(tid) * 7919 + 17);
   t.enabled = true;
+  if (g_preempt_run.load(kRlx)) PreemptRegister();
 }
 
 inline void
@@ -288,6 +328,7 @@ ChaosThreadEnd()
 {
   auto &t = t_chaos;
   t.enabled = false;
+  PreemptUnregister();
   std::lock_guard<std::mutex> g{g_chaos_totals.mtx};
   for (int i = 0; i < kMaxPoint; ++i) {
     g_chaos_totals.hits[i] += t.hits[i];
@@ -378,6 +419,9 @@ EmitResult(const Result &res, const char *status)
   for (auto &[k, v] : res.counters) {
     o += Fmt("%s\"%s\":%" PRIu64, first ? "" : ",", JEsc(k).c_str(), v);
     first = false;
+  }
+  if (g_preempt_handled.load(kRlx) != 0 && res.counters.find("signal_preemptions_delivered") == res.counters.end()) {
+    o += Fmt("%s\"signal_preemptions_delivered\":%" PRIu64, first ? "" : ",", g_preempt_handled.load(kRlx));
   }
   o += "},\"strings\":{";
   first = true;
@@ -478,6 +522,104 @@ std::atomic<uint64_t> g_ops_done{0};
 thread_local ChaosTls t_chaos{};
 PointCallback g_point_cb = nullptr;
 ChaosTotals g_chaos_totals;
+PreemptTable g_preempt;
+std::atomic<uint64_t> g_preempt_stall_ns{0};
+std::atomic<uint64_t> g_preempt_sent{0};
+std::atomic<uint64_t> g_preempt_handled{0};
+std::atomic<bool> g_preempt_run{false};
+static pthread_t g_preempter_thread;
+static uint64_t g_preempt_cfg[5];
+
+void
+PreemptRegister()
+{
+  if (t_chaos.preempt_slot != 0) return;
+  PreemptLock();
+  for (int i = 0; i < kPreemptSlots; ++i) {
+    if (!g_preempt.used[i]) {
+      g_preempt.used[i] = true;
+      g_preempt.th[i] = pthread_self();
+      t_chaos.preempt_slot = i + 1;
+      break;
+    }
+  }
+  PreemptUnlock();
+}
+
+void
+PreemptUnregister()
+{
+  if (t_chaos.preempt_slot == 0) return;
+  PreemptLock();
+  g_preempt.used[t_chaos.preempt_slot - 1] = false;
+  PreemptUnlock();
+  t_chaos.preempt_slot = 0;
+}
+
+static void
+PreemptHandler(int)
+{
+  const auto ns = g_preempt_stall_ns.load(kRlx);
+  g_preempt_handled.fetch_add(1, kRlx);
+  const auto end = NowNs() + ns;
+  while (NowNs() < end) {
+  }
+}
+
+static void *
+PreempterMain(void *)
+{
+  Rng r;
+  r.Seed(g_preempt_cfg[0] * 77 + 5);
+  while (g_preempt_run.load(kRlx)) {
+    SleepNs(r.Range(g_preempt_cfg[1], g_preempt_cfg[2]) * 1000);
+    PreemptLock();
+    int cand[kPreemptSlots];
+    int n = 0;
+    for (int i = 0; i < kPreemptSlots; ++i) {
+      if (g_preempt.used[i]) cand[n++] = i;
+    }
+    if (n > 0) {
+      g_preempt_stall_ns.store(r.Range(g_preempt_cfg[3], g_preempt_cfg[4]) * 1000, kRlx);
+      pthread_kill(g_preempt.th[cand[r.Below(n)]], SIGUSR1);
+      g_preempt_sent.fetch_add(1, kRlx);
+    }
+    PreemptUnlock();
+  }
+  return nullptr;
+}
+
+void
+PreempterStart(uint64_t seed, uint64_t gap_min_us, uint64_t gap_max_us, uint64_t stall_min_us, uint64_t stall_max_us)
+{
+#if !VERIF_TSAN && !VERIF_ASAN
+  struct sigaction sa {};
+  sa.sa_handler = &PreemptHandler;
+  sa.sa_flags = SA_RESTART;
+  sigaction(SIGUSR1, &sa, nullptr);
+  g_preempt_cfg[0] = seed;
+  g_preempt_cfg[1] = gap_min_us;
+  g_preempt_cfg[2] = gap_max_us;
+  g_preempt_cfg[3] = stall_min_us;
+  g_preempt_cfg[4] = stall_max_us;
+  g_preempt_run.store(true);
+  pthread_create(&g_preempter_thread, nullptr, &PreempterMain, nullptr);
+#else
+  (void)seed;
+  (void)gap_min_us;
+  (void)gap_max_us;
+  (void)stall_min_us;
+  (void)stall_max_us;
+#endif
+}
+
+void
+PreempterStop()
+{
+  if (!g_preempt_run.load()) return;
+  g_preempt_run.store(false);
+  pthread_join(g_preempter_thread, nullptr);
+}
 }  // namespace vf
 
 namespace dbgroup::verif
